@@ -402,12 +402,12 @@ theorem row_nodup_of_nodupb {K : Type} (A : CRS K) (h : A.nodupb = true) (c : Na
 /-- **what the assembly of row `i` computes**, on an all-`-1` marker, for a well-formed matrix whose rows have no repeated
 columns: `J` strictly increasing = the columns of the rows in `I`; `ek = e_i` restricted to `J`; `B(p, q) = a(I[q], J[p])` in
 column-major storage; the reset loop restores the marker. -/
-theorem spai1Local_spec {K : Type} [AddCommMonoid K] [One K] (A : CRS K) (hA : A.WF) (hnd : A.nodupb = true) (i : Nat) :
+theorem spai1Local_spec {K : Type} [AddCommMonoid K] [One K] (A : CRS K) (hA : A.WF) (i : Nat) :
     let P := spai1Local A i (Array.replicate A.ncols (-1))
     P.I = (A.row i).map (·.1) ∧ P.J.Pairwise (· < ·) ∧ (∀ d, d ∈ P.J ↔ d ∈ visited A P.I) ∧ (∀ d ∈ P.J, d < A.ncols) ∧
     P.ek.size = P.J.length ∧ (∀ p (hp : p < P.J.length), P.ek.getD p 0 = if P.J[p] = i then 1 else 0) ∧
-    P.B.size = P.I.length * P.J.length ∧
-    (∀ q (hq : q < P.I.length) p (hp : p < P.J.length), P.B.getD (p + P.J.length * q) 0 = A.get P.I[q] P.J[p]) ∧
+    (A.nodupb = true → P.B.size = P.I.length * P.J.length ∧
+      ∀ q (hq : q < P.I.length) p (hp : p < P.J.length), P.B.getD (p + P.J.length * q) 0 = A.get P.I[q] P.J[p]) ∧
     P.J.foldl (fun (m : Array Int) c => m.setIfInBounds c (-1)) P.marker = Array.replicate A.ncols (-1) := by
   intro P
   obtain ⟨cinv, cmem⟩ := spai1Collect_spec A hA ((A.row i).map (·.1))
@@ -436,9 +436,7 @@ theorem spai1Local_spec {K : Type} [AddCommMonoid K] [One K] (A : CRS K) (hA : A
     unfold visited
     rw [List.mem_flatMap]
     exact ⟨c, hc, List.mem_map.mpr ⟨a, ha, rfl⟩⟩
-  obtain ⟨b1, b2, _⟩ := fillFrom_spec A P.J P.marker hOK P.I 0 hcov (fun c _ => row_nodup_of_nodupb A hnd c)
-    (Array.replicate (P.I.length * P.J.length) (0 : K)) (by simp [Nat.mul_comm])
-  refine ⟨rfl, ?_, hJmem, hJlt, ?_, ?_, ?_, ?_, ?_⟩
+  refine ⟨rfl, ?_, hJmem, hJlt, ?_, ?_, ?_, ?_⟩
   · rw [hJdef]; exact sortNat_strict _ cinv.nodup
   · rw [hek, e1]; simp
   · intro p hp
@@ -449,8 +447,11 @@ theorem spai1Local_spec {K : Type} [AddCommMonoid K] [One K] (A : CRS K) (hA : A
     · rw [if_pos ⟨by rw [h], hp⟩, if_pos h]
     · rw [if_neg (fun hh => h (Option.some.inj hh.1)), if_neg h]
       simp [Array.getD, hp]
-  · rw [hB, spai1Fill_eq, b1]; simp
-  · intro q hq p hp
+  · intro hnd
+    obtain ⟨b1, b2, _⟩ := fillFrom_spec A P.J P.marker hOK P.I 0 hcov (fun c _ => row_nodup_of_nodupb A hnd c)
+      (Array.replicate (P.I.length * P.J.length) (0 : K)) (by simp [Nat.mul_comm])
+    refine ⟨by rw [hB, spai1Fill_eq, b1]; simp, ?_⟩
+    intro q hq p hp
     have := b2 q hq p hp
     rw [Nat.zero_add] at this
     rw [hB, spai1Fill_eq, this]
